@@ -223,13 +223,40 @@ def r_functor_builders(mod, rep, R='R13.4'):
 
 
 def r_shape_predicates(mod, rep, R='R13.2'):
-    """is_atomic / is_functor are complementary constants per class"""
-    for cls, prop, val in (('Atom', 'is_atomic', True), ('Functor', 'is_functor', True)):
-        fn = mod.get('%s.%s' % (cls, prop))
-        ps = SymExec(fn).run()
-        ok = len(ps) == 1 and ps[0][0].ret == C(val) and any('property' in src(d) for d in fn.decorator_list)
-        rep.check(ok, R, '%s:%s %s.%s' % (REL, fn.lineno, cls, prop), '%s:%s' % (cls, prop), '%s.%s is the constant %s' % (cls, prop, val),
-                  '%s.%s is not the constant %s' % (cls, prop, val))
+    """is_atomic / is_functor are complementary constants per class: stated by a property that returns the constant or by
+    a plain class constant (not an annotated one: that would be a dataclass field), or derived in the base class as the
+    negation of the other one"""
+    def own(cls_name, prop):
+        cls = mod.get(cls_name)
+        for s_ in cls.body:
+            if isinstance(s_, ast.FunctionDef) and s_.name == prop:
+                ps = SymExec(s_).run()
+                if len(ps) == 1 and ps[0][0].ret is not None and any('property' in src(d) for d in s_.decorator_list):
+                    return ps[0][0].ret, s_
+                return ('sym', 'unreadable'), s_
+            if isinstance(s_, ast.Assign) and any(isinstance(t, ast.Name) and t.id == prop for t in s_.targets) and isinstance(s_.value, ast.Constant):
+                return C(s_.value.value), s_
+            if isinstance(s_, ast.AnnAssign) and isinstance(s_.target, ast.Name) and s_.target.id == prop:
+                if 'ClassVar' in src(s_.annotation) and isinstance(s_.value, ast.Constant):
+                    return C(s_.value.value), s_
+                return ('sym', 'field'), s_
+        return None, None
+
+    def value(cls_name, prop, depth=0):
+        v, node = own(cls_name, prop)
+        if v is None and depth < 3:
+            bv, bnode = own('Category', prop)
+            if bv is not None and bv[0] == 'unop' and bv[1] == 'not' and bv[2][0] == 'attr' and bv[2][1] == N('self'):
+                inner, _ = value(cls_name, bv[2][2], depth + 1)
+                if inner is not None and inner[0] == 'const' and isinstance(inner[1], bool):
+                    return C(not inner[1]), bnode
+            return bv, bnode
+        return v, node
+    for cls, want in (('Atom', {'is_atomic': True, 'is_functor': False}), ('Functor', {'is_atomic': False, 'is_functor': True})):
+        for prop, val in want.items():
+            v, node = value(cls, prop)
+            rep.check(v == C(val), R, '%s:%s %s.%s' % (REL, getattr(node, 'lineno', mod.get(cls).lineno), cls, prop), '%s:%s' % (cls, prop),
+                      '%s.%s is the constant %s' % (cls, prop, val), '%s.%s is not the constant %s (%s)' % (cls, prop, val, show(v) if v else 'undefined'))
     for prop, other in (('is_functor', 'is_atomic'), ('is_atomic', 'is_functor')):
         fn = mod.get('Category.' + prop)
         ps = SymExec(fn).run()
